@@ -173,6 +173,17 @@ pub struct HsCase {
     pub payload: u16,
     pub early: bool,
     pub seed: u64,
+    /// the last `tail` bytes of the handshake head (the final CR LF CR LF region) are delivered one byte per segment
+    #[serde(default)]
+    pub tail: u8,
+}
+
+fn tail_cuts(cs: &mut Vec<usize>, hl: usize, tail: u8) {
+    for j in 1..=(tail as usize) {
+        if hl > j {
+            cs.push(hl - j);
+        }
+    }
 }
 
 fn write_cut(steps: &mut Vec<AppStep>, msg: &[u8], cuts: &[u16], pause: u8) -> bool {
@@ -209,8 +220,8 @@ pub fn hs_strategy() -> BoxedStrategy<HsCase> {
             .prop_map(|(m, h, p, pq, x, b)| Kind::Http(m.to_string(), h, p, pq, x, b)),
         2 => prop_oneof![12 => proptest::sample::select(vec![0u8, 1, 2, 3, 4, 6, 7]), 1 => Just(5u8)].prop_map(Kind::Bad),
     ];
-    (kind, proptest::collection::vec(any::<u16>(), 0..4), 2u8..6, prop_oneof![Just(0u16), 1u16..200, 200u16..3000], any::<bool>(), any::<u64>())
-        .prop_map(|(kind, cuts, pause_ms, payload, early, seed)| HsCase { kind, cuts, pause_ms, payload, early, seed })
+    (kind, proptest::collection::vec(any::<u16>(), 0..4), 2u8..6, prop_oneof![Just(0u16), 1u16..200, 200u16..3000], any::<bool>(), any::<u64>(), prop_oneof![3 => Just(0u8), 2 => 1u8..=6])
+        .prop_map(|(kind, cuts, pause_ms, payload, early, seed, tail)| HsCase { kind, cuts, pause_ms, payload, early, seed, tail })
         .boxed()
 }
 
@@ -266,6 +277,7 @@ pub fn build_script(c: &HsCase) -> Built {
                 head.extend_from_slice(&payload);
             }
             let mut cs: Vec<usize> = c.cuts.iter().map(|p| 1 + rt::idx(*p, hl.saturating_sub(1))).filter(|x| *x < hl).collect();
+            tail_cuts(&mut cs, hl, c.tail);
             cs.sort();
             cs.dedup();
             let mut last = 0;
@@ -293,6 +305,7 @@ pub fn build_script(c: &HsCase) -> Built {
             let hl = req.len();
             req.extend_from_slice(&b);
             let mut cs: Vec<usize> = c.cuts.iter().map(|p| 1 + rt::idx(*p, hl.saturating_sub(1))).filter(|x| *x < hl).collect();
+            tail_cuts(&mut cs, hl, c.tail);
             cs.sort();
             cs.dedup();
             let mut last = 0;
